@@ -58,6 +58,7 @@ func (m *messageSenderImpl) OnDisconnect(ctx context.Context, p peer.ID) {
 
 	// Do this asynchronously as ms.lk can block for a while.
 	go func() {
+		verifYield("disconnect:invalidating")
 		if err := ms.lk.Lock(ctx); err != nil {
 			return
 		}
@@ -137,8 +138,10 @@ func (m *messageSenderImpl) messageSenderForPeer(ctx context.Context, p peer.ID)
 	ms = &peerMessageSender{p: p, m: m, lk: internal.NewCtxMutex()}
 	m.strmap[p] = ms
 	m.smlk.Unlock()
+	verifYield("sender:registered")
 
 	if err := ms.prepOrInvalidate(ctx); err != nil {
+		verifYield("sender:prep-failed")
 		m.smlk.Lock()
 		defer m.smlk.Unlock()
 
